@@ -24,6 +24,7 @@ import (
 	"github.com/jech/galene/token"
 
 	"verif/core"
+	"verif/seqx"
 	"verif/sig"
 	"verif/vtime"
 )
@@ -768,7 +769,7 @@ func tokenAliasCheck(res *core.Result) core.Sub {
 			outc.Add(fmt.Sprint(got))
 			if fmt.Sprint(got) != fmt.Sprint(want) {
 				res.Violate(core.Violation{Signature: "C11/token-permissions-changed-by-moderation",
-					What: fmt.Sprintf("token grants %v; after its first bearer was moderated with %v, the next bearer of the same token holds %v", perms, seq, got),
+					What:   fmt.Sprintf("token grants %v; after its first bearer was moderated with %v, the next bearer of the same token holds %v", perms, seq, got),
 					Replay: map[string]any{"sub": "token-alias", "perms": perms, "seq": seq}})
 			}
 			w.Close()
@@ -875,7 +876,7 @@ func entryAliasCheck(res *core.Result) core.Sub {
 						}
 					}
 					res.Violate(core.Violation{Signature: "C11/same-entry-permissions-aliased/" + cls,
-						What: fmt.Sprintf("entry %q: after moderation %v, c%d holds %v; the reference (its own history only) says %v", entry.user, seq, i, keys(got), keys(ref[i])),
+						What:   fmt.Sprintf("entry %q: after moderation %v, c%d holds %v; the reference (its own history only) says %v", entry.user, seq, i, keys(got), keys(ref[i])),
 						Replay: map[string]any{"sub": "entry-alias", "entry": entry.user, "seq": fmt.Sprint(seq)}})
 				}
 			}
@@ -918,6 +919,9 @@ func main() {
 	if o.Shard == 2%o.Shards && core.Want("revocation") {
 		res.AddSub(revocationCheck(res))
 	}
+	if o.Shard == 4%o.Shards && core.Want("moderation-vs-group-switch") {
+		res.AddSub(seqx.Explore(switchConfig(), res))
+	}
 	if o.Shard == 3%o.Shards && core.Want("token-login") {
 		res.AddSub(tokenAliasCheck(res))
 	}
@@ -947,6 +951,8 @@ func replay(path string) {
 			Role, Prefix string
 			Unrestricted bool
 			Action       string
+			Config       string `json:"config"`
+			Ops          []sop  `json:"ops"`
 		} `json:"replay"`
 	}
 	if err := json.Unmarshal(data, &a); err != nil {
@@ -954,6 +960,21 @@ func replay(path string) {
 		os.Exit(2)
 	}
 	r := a.Replay
+	if r.Config == switchConfig().Name {
+		defer sig.Cleanup()
+		w := swFresh().(*sworld)
+		for _, o := range r.Ops {
+			v := w.Apply(o)
+			fmt.Printf("  %-12s -> in=%q held=%v justified=%v pending=%v signalled=%v\n", o.Kind, w.in, w.w.Clients[0].V.Permissions(), keys(w.want), w.pending, w.w.Clients[0].V.Signalled())
+			if v != nil {
+				fmt.Printf("VIOLATION property=C11 replay=%s\n  signature: %s\n  %s\n", path, v.Signature, v.What)
+				sig.Cleanup()
+				os.Exit(1)
+			}
+		}
+		fmt.Println("replay: no violation")
+		return
+	}
 	w, pan := sig.Setup(r.Role, r.Prefix, r.Unrestricted)
 	defer sig.Cleanup()
 	if pan != "" {
